@@ -43,20 +43,34 @@ theorem afterGate_of_ne {c : Conn} (h : st_LOGON_INITIAL_SENT < c.state) :
     simp only [beq_eq_false_iff_ne, ne_eq]; omega
   simp [afterGate, gateEff, h2]
 
-/-- `send_msg` of a SequenceReset / PossDupFlag=Y message numbered `k` above every journal row -/
-theorem sendMsg_fixed (env : Env) (m : Msg) (c : Conn) (k : Int) (hc : ResendCtx env c)
+theorem persist_out_of_insert (j : Journal) (k : Int) (f : Msg) (J2 : Rows)
+    (h : Rows.insert k f j.out = some J2) :
+    j.persist .outbound k f = some { j with out := J2, outSeq := k } := by
+  simp [Journal.persist, h]
+
+/-- `send_msg` of a SequenceReset / PossDupFlag=Y message numbered `k`, a number the journal does not
+hold yet (`insert` succeeds) -/
+theorem sendMsg_fixed' (env : Env) (m : Msg) (c : Conn) (k : Int) (J2 : Rows) (hc : ResendCtx env c)
     (hn : isNew m = false) (h34 : m.get? tMsgSeqNum = some (pyStr k)) (hm : LatinMsg m)
-    (hty : (m.mtype == mTestRequest) = false) (hlt : Rows.AllLt k c.journal.out) :
-    sendMsg env m c = ⟨.ok (), setOut c (c.journal.out ++ [(k, buildFrame c.sess env.stamp m k)]) k,
-      [.write (buildFrame c.sess env.stamp m k)]⟩ := by
+    (hty : (m.mtype == mTestRequest) = false)
+    (hins : Rows.insert k (buildFrame c.sess env.stamp m k) c.journal.out = some J2) :
+    sendMsg env m c = ⟨.ok (), setOut c J2 k, [.write (buildFrame c.sess env.stamp m k)]⟩ := by
   rw [sendMsg_eq, gateRefuses_false hc.state]
   obtain ⟨h1, h2⟩ := afterGate_of_ne hc.state
   simp only [Bool.false_eq_true, if_false, h1, h2]
   rw [Out.pre_nil, sendCore_fixed env m c k (encodeSeq_fixed m c _ k hn h34 (pyInt_pyStr k))]
   have hl := frameLatin1_build c.sess env.stamp m k hc.latS hc.latT hc.latStamp hm
   simp only [hty, Bool.false_and, Bool.false_eq_true, if_false, hl, Bool.not_true,
-    persist_out_of_allLt _ _ _ hlt, hc.sock]
+    persist_out_of_insert _ _ _ _ hins, hc.sock]
   simp [setOut, hc.sock]
+
+/-- … numbered `k` above every journal row -/
+theorem sendMsg_fixed (env : Env) (m : Msg) (c : Conn) (k : Int) (hc : ResendCtx env c)
+    (hn : isNew m = false) (h34 : m.get? tMsgSeqNum = some (pyStr k)) (hm : LatinMsg m)
+    (hty : (m.mtype == mTestRequest) = false) (hlt : Rows.AllLt k c.journal.out) :
+    sendMsg env m c = ⟨.ok (), setOut c (c.journal.out ++ [(k, buildFrame c.sess env.stamp m k)]) k,
+      [.write (buildFrame c.sess env.stamp m k)]⟩ :=
+  sendMsg_fixed' env m c k _ hc hn h34 hm hty (Rows.insert_of_allLt _ _ _ hlt)
 
 theorem latinMsg_gapFill (a b : Int) : LatinMsg (gapFillMsg a b) := by
   refine ⟨(by decide : isLatin1 mSequenceReset = true), ?_⟩
@@ -80,5 +94,20 @@ theorem sendMsg_gapFill (env : Env) (c : Conn) (a b : Int) (hc : ResendCtx env c
         [.write (buildFrame c.sess env.stamp (gapFillMsg a b) a)]⟩ :=
   sendMsg_fixed env _ c a hc (gapFill_facts a b).1 (gapFill_facts a b).2.1 (latinMsg_gapFill a b)
     (gapFill_facts a b).2.2 hlt
+
+/-- the gap fill inserted between rows below `a` and rows above it -/
+theorem sendMsg_gapFill' (env : Env) (c : Conn) (a b : Int) (J2 : Rows) (hc : ResendCtx env c)
+    (hins : Rows.insert a (buildFrame c.sess env.stamp (gapFillMsg a b) a) c.journal.out = some J2) :
+    sendMsg env (gapFillMsg a b) c =
+      ⟨.ok (), setOut c J2 a, [.write (buildFrame c.sess env.stamp (gapFillMsg a b) a)]⟩ :=
+  sendMsg_fixed' env _ c a J2 hc (gapFill_facts a b).1 (gapFill_facts a b).2.1 (latinMsg_gapFill a b)
+    (gapFill_facts a b).2.2 hins
+
+/-- `persist_msg` of a recovered row above every journal row -/
+theorem persistOutboundRow_run (n : Int) (row : Msg) (c : Conn) (hlt : Rows.AllLt n c.journal.out) :
+    persistOutboundRow n row c = ⟨.ok (), setOut c (c.journal.out ++ [(n, row)]) n, []⟩ := by
+  unfold persistOutboundRow
+  rw [run_bind_get, persist_out_of_allLt _ _ _ hlt]
+  rfl
 
 end AsyncFix.Session
